@@ -153,6 +153,28 @@ def _size(case):
     return len(json.dumps(jsonable(case), sort_keys=True))
 
 
+def _kawin_internal_error(e):
+    """'file:line (function)' of the innermost kawin frame if the exception was raised by an operation inside kawin (nothing of the
+    harness deeper in the stack, and the failing kawin line is not a `raise` statement); None otherwise."""
+    import linecache
+    frames = traceback.extract_tb(e.__traceback__)
+    ksrc = os.path.join(os.path.abspath(KAWIN_SRC), "kawin") + os.sep
+    here = os.path.dirname(os.path.abspath(__file__)) + os.sep
+    last = None
+    for f in frames:
+        fn = os.path.abspath(f.filename)
+        if fn.startswith(ksrc) and os.sep + "tests" + os.sep not in fn:
+            last = f
+        elif fn.startswith(here):
+            last = None                 # the harness is deeper in the stack than kawin (callback, stub backend, ...)
+    if last is None:
+        return None
+    line = (last.line or linecache.getline(last.filename, last.lineno)).strip()
+    if line.startswith("raise ") or line == "raise":
+        return None
+    return "%s:%d (%s)" % (os.path.relpath(last.filename, os.path.abspath(KAWIN_SRC)), last.lineno, last.name)
+
+
 def run_case(clause, case, findings, res):
     """Run check on one case, account for it in res.  Returns list of *unlisted* violations."""
     import io
@@ -163,11 +185,17 @@ def run_case(clause, case, findings, res):
     except HarnessError:
         sys.stdout = _so
         raise
-    except Exception as e:  # an exception escaping check() is a harness error
+    except Exception as e:  # an exception escaping check() is a harness error ...
         tb = traceback.format_exc()
         sys.stdout = _so
-        res.harness_errors.append({"case": jsonable(case), "error": repr(e), "tb": tb[-3000:]})
-        return []
+        internal = _kawin_internal_error(e)
+        if internal is None:
+            res.harness_errors.append({"case": jsonable(case), "error": repr(e), "tb": tb[-3000:]})
+            return []
+        # ... unless it is an internal error of kawin on a generated (legal) input: a Python/numpy operation failing inside kawin's
+        # own code, not a `raise` statement of kawin (a deliberate rejection means the harness asked for something kawin refuses)
+        out = Out()
+        out.fail("kawin_internal_error:%s" % type(e).__name__, "%r raised at %s while evaluating the case" % (e, internal))
     finally:
         sys.stdout = _so
     res.evaluations += 1
